@@ -174,8 +174,10 @@ def define_blockshape_3d(bits_per_voxel, blockshape):
         elif blockshape[2] == -1:
             blockshape = (blockshape[0], blockshape[1], int(DISK_BLOCK_BYTES * 8 //
                                                             (blockshape[0] * blockshape[1] * bits_per_voxel)))
-        else:
-            assert(bits_per_voxel * blockshape[0] * blockshape[1] * blockshape[2] == DISK_BLOCK_BYTES * 8)
+    # Whichever value was derived, one block must fill exactly one disk block with a layout ZFP and the reader support
+    assert(bits_per_voxel * blockshape[0] * blockshape[1] * blockshape[2] == DISK_BLOCK_BYTES * 8)
+    assert all(n >= 4 and n & (n - 1) == 0 for n in blockshape[1:]) and \
+        (blockshape[0] == 1 or (blockshape[0] >= 4 and blockshape[0] & (blockshape[0] - 1) == 0))
     return bits_per_voxel, blockshape
 
 
